@@ -222,7 +222,7 @@ def substitute_function(fn) -> int:
                 if "." not in f and counts.get(f) == 1 and f not in params:
                     dst = next((x for x in _own_nodes(fn) if isinstance(x, ast.Assign) and any(isinstance(y, ast.Name) and y.id == f and isinstance(y.ctx, ast.Store)
                                                                                                for t_ in x.targets for y in ast.walk(t_))), None)
-                    if dst is not None and (dst.lineno, dst.col_offset) < (st.lineno, st.col_offset):
+                    if dst is not None and _before(dst, st):
                         single_before.add(f)
             # a loop variable of the loop the alias lives in: re-bound once per iteration, together with the alias
             for f in free:
@@ -245,7 +245,7 @@ def substitute_function(fn) -> int:
             for f in free:
                 if "." in f:
                     sts = [x for x in _own_nodes(fn) if isinstance(x, ast.Attribute) and isinstance(x.ctx, ast.Store) and dotted(x) == f]
-                    if len(sts) == 1 and (sts[0].lineno, sts[0].col_offset) < (st.lineno, st.col_offset):
+                    if len(sts) == 1 and _before(sts[0], st):
                         single_before.add(f)
             # the root of an attribute path that is a local with one definition, placed before the alias (`values = []; append = values.append`):
             # the local names one object for the alias's whole life - its single store is not a re-binding
@@ -255,7 +255,7 @@ def substitute_function(fn) -> int:
                 if "." in f and counts.get(root) == 1 and root not in params:
                     dst = next((x for x in _own_nodes(fn) if isinstance(x, ast.Assign) and any(isinstance(y, ast.Name) and y.id == root and isinstance(y.ctx, ast.Store)
                                                                                                for t_ in x.targets for y in ast.walk(t_))), None)
-                    if dst is not None and (dst.lineno, dst.col_offset) < (st.lineno, st.col_offset):
+                    if dst is not None and _before(dst, st):
                         stable_roots.add(root)
             for s_ in stored:
                 if s_ == name or s_ in single_before or s_ in stable_roots:
@@ -773,8 +773,29 @@ def propagate_atom_copies(fn) -> int:
             | ({fn.args.vararg.arg} if fn.args.vararg else set()) | ({fn.args.kwarg.arg} if fn.args.kwarg else set())
         nested_names = {x.id for sc in _nested_scopes(fn) for x in ast.walk(sc) if isinstance(x, ast.Name)}
         unstable = _unstable_paths(fn)
+        stored_paths_fn = _stored_paths(fn)
+        params_fn = {a.arg for a in fn.args.args + fn.args.kwonlyargs + fn.args.posonlyargs}
+        selfname = (func_params(fn) or ["self"])[0]
+
+        def stable_param_path(v):
+            """`self.eval`, `node.generators`: an attribute path on a parameter that the function never re-binds, that nothing in the
+            function stores to, and that no other method assigns."""
+            d = dotted(v) if isinstance(v, ast.Attribute) else None
+            if not d:
+                return False
+            root = d.split(".")[0]
+            if root not in params_fn or root in stored_paths_fn:
+                return False
+            ds = d if selfname == "self" else (("self" + d[len(selfname):]) if root == selfname else d)
+            parts = d.split(".")
+            prefixes = {".".join(parts[:k]) for k in range(2, len(parts) + 1)}
+            if prefixes & stored_paths_fn:
+                return False
+            sparts = ds.split(".")
+            return not any(".".join(sparts[:k]) in unstable for k in range(2, len(sparts) + 1))
+
         cands = [st for st in own if isinstance(st, ast.Assign) and len(st.targets) == 1 and isinstance(st.targets[0], ast.Name) and is_new(st.targets[0].id)
-                 and _atom(st.value, stored_local) and st.targets[0].id not in nested_names and id(st) not in skip
+                 and (_atom(st.value, stored_local) or stable_param_path(st.value)) and st.targets[0].id not in nested_names and id(st) not in skip
                  and not any(isinstance(n, ast.Name) and n.id in unstable for n in ast.walk(st.value))]
         if not cands:
             break
@@ -995,6 +1016,68 @@ def hoist_walrus(fn) -> int:
             for child in ast.iter_child_nodes(node):
                 child._parent = node
     return done
+
+
+def inline_copied_templates(prog) -> int:
+    """A module-level dict/list display the rules do not know, whose every use is a fresh copy (`NAME.copy()`, `dict(NAME)`,
+    `list(NAME)`, `{**NAME}`), is the literal written once: each copy site gets the display itself. Element expressions must be
+    constants or plain names (evaluated at import time in the original; names that some function re-binds are refused)."""
+    import json
+    import os
+
+    with open(os.path.join(os.path.dirname(os.path.abspath(__file__)), "known_globals.json")) as f:
+        known = json.load(f)["names"]
+    total = 0
+    for m in prog.modules.values():
+        kn = set(known.get(m.modname, []))
+        rebound = set()
+        for g in ast.walk(m.tree):
+            if isinstance(g, ast.Global):
+                rebound.update(g.names)
+        for st in list(m.tree.body):
+            if not (isinstance(st, ast.Assign) and len(st.targets) == 1 and isinstance(st.targets[0], ast.Name) and isinstance(st.value, (ast.Dict, ast.List))):
+                continue
+            name = st.targets[0].id
+            if name in kn or name in rebound:
+                continue
+            v = st.value
+            elems = ([k for k in v.keys] + list(v.values)) if isinstance(v, ast.Dict) else list(v.elts)
+            if any(e is None or not (isinstance(e, ast.Constant) or (isinstance(e, ast.Name) and e.id not in rebound)) for e in elems):
+                continue
+            uses = [n for n in ast.walk(m.tree) if isinstance(n, ast.Name) and n.id == name and n is not st.targets[0]]
+            sites = []
+            ok = bool(uses)
+            for u in uses:
+                par = getattr(u, "_parent", None)
+                gp = getattr(par, "_parent", None)
+                if isinstance(par, ast.Attribute) and par.attr == "copy" and isinstance(gp, ast.Call) and gp.func is par and not gp.args and not gp.keywords:
+                    sites.append(gp)
+                elif isinstance(par, ast.Call) and isinstance(par.func, ast.Name) and par.func.id in ("dict", "list") and par.args == [u] and not par.keywords \
+                        and (par.func.id == "dict") == isinstance(v, ast.Dict):
+                    sites.append(par)
+                elif isinstance(par, ast.Dict) and isinstance(v, ast.Dict) and len(par.keys) == 1 and par.keys[0] is None and par.values[0] is u:
+                    sites.append(par)
+                else:
+                    ok = False
+            if not ok:
+                continue
+            for site in sites:
+                rep = copy_ast(v)
+                for y in ast.walk(rep):
+                    ast.copy_location(y, site)
+                    y._module = m
+                sp = site._parent
+                for f, val in ast.iter_fields(sp):
+                    if val is site:
+                        setattr(sp, f, rep)
+                    elif isinstance(val, list):
+                        for k, e in enumerate(val):
+                            if e is site:
+                                val[k] = rep
+                rep._parent = sp
+            m.tree.body.remove(st)
+            total += 1
+    return total
 
 
 def _literal(v):
@@ -1298,6 +1381,7 @@ def run(prog) -> int:
 
     canonical_spellings(prog)
     substitute_module_aliases(prog)
+    inline_copied_templates(prog)
     folded = fold_new_constants(prog)
     for m in prog.modules.values():
         relink(m)
